@@ -58,16 +58,16 @@ type c11Script struct {
 	RWQ    bool     `json:"rwq"`
 	Dict   bool     `json:"dict"`
 	Pos    bool     `json:"pos,omitempty"` // the connect-time subscription is positioned
-	Window []string `json:"window"` // ops inside the connect window: send | subscribe | pub0 | pub
+	Window []string `json:"window"`        // ops inside the connect window: send | subscribe | pub0 | pub
 	// ops at the moment the connect reply is handed to the transport (OnTransportWrite of the
 	// connect frame; ReplyWithoutQueue only: the command goroutine itself is parked there, after
 	// all the connect-time subscribe work and before the write): send | subscribe | pub0 | pub.
 	// "pub" is a publication WITH offset on the connect-time subscription: the subscription is not
 	// installed yet, so it is dropped (non-positioned) or held behind the recovery buffer until
 	// after the reply (positioned)
-	Late []string `json:"late,omitempty"`
-	After  []string `json:"after"`  // ops after the connect reply: send | rpc | pub0
-	Close  string   `json:"close"`  // "" (plain close at the end) | "during-encode" (close while a reply sits inside Encode)
+	Late  []string `json:"late,omitempty"`
+	After []string `json:"after"` // ops after the connect reply: send | rpc | pub0
+	Close string   `json:"close"` // "" (plain close at the end) | "during-encode" (close while a reply sits inside Encode)
 }
 
 type c11World struct {
